@@ -43,6 +43,12 @@ func (t *LegacyPKT) ReadPacket() (n int, p []byte, err error) {
 	p = make([]byte, n)
 	copy(p, buf)
 
+	// a read can return data together with the error that ends the body,
+	// deliver the data first. The error is sticky and returned by the next read
+	if n > 0 {
+		return n, p, nil
+	}
+
 	return n, p, err
 }
 
